@@ -206,7 +206,7 @@ Proof. repeat split; vm_compute; reflexivity. Qed.
    satisfies it" can never be lower than a satisfying lockfile selection). Before the repair of
    F-C06b (Builder::restart dropped what the lockfile had filled in) this was false of the code and
    of the model. *)
-From DG Require Model.Jsr Proofs.JsrTable.
+From DG Require Base.Sexp Model.Jsr Model.RunJsr Proofs.JsrTable.
 
 Theorem C06_registry_lockfile_respected : forall W o roots g,
   Jsr.jbuild W o roots = Some g ->
@@ -219,11 +219,31 @@ Proof.
 Qed.
 Print Assumptions C06_registry_lockfile_respected.
 
+(* Every jsr: specifier the build resolved (it has a redirect) has its requirement mapped to a
+   version that no lockfile-selected version of that package satisfying the requirement exceeds;
+   and the judgement the registry stream evaluates on each case of the real builder
+   (RunJsr.c06_judgement) is therefore always "true" on the model: a case on which the real
+   builder's graph equals the model's and the flag differs cannot exist - a mismatch of the
+   graphs is what a change of the code shows up as. *)
+From DG Require Proofs.JsrSeed.
+
+Theorem C06_registry_resolved_not_below_lockfile : forall W, Jsr.wf_jworld W = true -> forall o roots g,
+  Jsr.jbuild W o roots = Some g ->
+  forall s t p r e, lookup s (Jsr.jg_redirects g) = Some t -> Jsr.cls_of W s = Jsr.CJsr p r e ->
+  exists p' v, lookup r (Jsr.pt_map (Jsr.jg_pkgs g)) = Some (p', v) /\
+    forall x, In x (Jsr.seeded_versions W p') -> Jsr.matches W r x = true -> (x <= v)%N.
+Proof. exact JsrSeed.jbuild_resolved_above_seeds. Qed.
+Print Assumptions C06_registry_resolved_not_below_lockfile.
+
+Theorem C06_registry_judgement_holds : forall W, Jsr.wf_jworld W = true -> forall o roots g,
+  Jsr.jbuild W o roots = Some g -> RunJsr.c06_judgement W g roots = [Sexp.judge true].
+Proof. exact JsrSeed.c06_judgement_true. Qed.
+Print Assumptions C06_registry_judgement_holds.
+
 (* Non-vacuity, and the reproduction of F-C06b as the model sees it (the world is the harness's
    abstraction of: main.ts imports jsr:@s/a@1 and jsr:@s/b@2; @s/a has 1.0.0 and 1.1.0; @s/b has only
    1.0.0, so the first pass cannot satisfy @s/b@2 and the builder restarts; the lockfile selects
    @s/a@1 -> 1.0.0). Requirement 1 = @s/a@1, package 1 = @s/a, versions 1 = 1.0.0, 2 = 1.1.0. *)
-From DG Require Base.Sexp Model.RunJsr.
 Definition c06j_world_sx : Sexp.sexp :=
   Sexp.L [Sexp.L [Sexp.L [Sexp.A 2; Sexp.A 3; Sexp.A 1; Sexp.A 1; Sexp.A 2]; Sexp.L [Sexp.A 3; Sexp.A 3; Sexp.A 1; Sexp.A 1; Sexp.A 3]; Sexp.L [Sexp.A 5; Sexp.A 3; Sexp.A 1; Sexp.A 2; Sexp.A 2]; Sexp.L [Sexp.A 6; Sexp.A 3; Sexp.A 1; Sexp.A 2; Sexp.A 3]; Sexp.L [Sexp.A 9; Sexp.A 3; Sexp.A 4; Sexp.A 1; Sexp.A 2]; Sexp.L [Sexp.A 12; Sexp.A 1; Sexp.A 1; Sexp.A 1; Sexp.A 5]; Sexp.L [Sexp.A 13; Sexp.A 1; Sexp.A 4; Sexp.A 2; Sexp.A 5]]; Sexp.L [Sexp.L [Sexp.A 1; Sexp.L [Sexp.A 4; Sexp.A 1; Sexp.A 6; Sexp.A 1; Sexp.A 0; Sexp.L [Sexp.L [Sexp.A 12; Sexp.A 7; Sexp.A 0]; Sexp.L [Sexp.A 13; Sexp.A 8; Sexp.A 0]]]]; Sexp.L [Sexp.A 3; Sexp.L [Sexp.A 4; Sexp.A 3; Sexp.A 9; Sexp.A 1; Sexp.A 0; Sexp.L []]]; Sexp.L [Sexp.A 6; Sexp.L [Sexp.A 4; Sexp.A 6; Sexp.A 10; Sexp.A 1; Sexp.A 0; Sexp.L []]]]; Sexp.L []; Sexp.L [Sexp.L [Sexp.A 1; Sexp.A 8; Sexp.L [Sexp.A 1; Sexp.L [Sexp.L [Sexp.A 1; Sexp.A 0]; Sexp.L [Sexp.A 2; Sexp.A 0]]]; Sexp.L [Sexp.A 1; Sexp.L [Sexp.L [Sexp.A 1; Sexp.A 0]; Sexp.L [Sexp.A 2; Sexp.A 0]]]]; Sexp.L [Sexp.A 4; Sexp.A 11; Sexp.L [Sexp.A 1; Sexp.L [Sexp.L [Sexp.A 1; Sexp.A 0]]]; Sexp.L [Sexp.A 1; Sexp.L [Sexp.L [Sexp.A 1; Sexp.A 0]]]]]; Sexp.L [Sexp.L [Sexp.A 1; Sexp.A 1; Sexp.A 4; Sexp.A 2; Sexp.L [Sexp.A 1; Sexp.A 11; Sexp.L []; Sexp.L [Sexp.L [Sexp.A 5; Sexp.A 3]]; Sexp.L []; Sexp.L []]; Sexp.A 0]; Sexp.L [Sexp.A 1; Sexp.A 2; Sexp.A 7; Sexp.A 5; Sexp.L [Sexp.A 1; Sexp.A 11; Sexp.L []; Sexp.L [Sexp.L [Sexp.A 5; Sexp.A 6]]; Sexp.L []; Sexp.L []]; Sexp.A 0]; Sexp.L [Sexp.A 4; Sexp.A 1; Sexp.A 10; Sexp.A 9; Sexp.L [Sexp.A 0; Sexp.A 0]; Sexp.A 0]]; Sexp.L [Sexp.L [Sexp.A 1; Sexp.L [Sexp.A 1; Sexp.A 2]]; Sexp.L [Sexp.A 2; Sexp.L []]]; Sexp.L []; Sexp.L []; Sexp.L [Sexp.A 2; Sexp.A 3; Sexp.A 4; Sexp.A 5; Sexp.A 6; Sexp.A 7; Sexp.A 8; Sexp.A 9; Sexp.A 10; Sexp.A 11]; Sexp.A 12; Sexp.A 10; Sexp.L [Sexp.L [Sexp.A 1; Sexp.A 1; Sexp.A 1]]].
 
